@@ -61,7 +61,7 @@ def run_workers(prop, tier, seed, nshards, timeout, only=None, budget=None):
                 'MKL_NUM_THREADS': '1', 'MPLBACKEND': 'Agg',
                 'PYTHONHASHSEED': '0', 'PYTHONPATH': core.VERIF,
                 core.GUARD: '1', 'RV_WATCHDOG_S': str(int(timeout + 30)),
-                'PYTHONDONTWRITEBYTECODE': '1', 'MPLCONFIGDIR': outdir})
+                'PYTHONDONTWRITEBYTECODE': '1'})
     if budget:
         env['RV_SHARD_BUDGET_S'] = str(budget)
     procs = []
@@ -136,7 +136,7 @@ def main(argv=None):
         only, tier, seed = w['case_id'], w['tier'], w['seed']
         if isinstance(only, list):
             only = tuple(only)
-    jobs = args.jobs or min(16, os.cpu_count() or 4)
+    jobs = args.jobs or min(4, os.cpu_count() or 4)
     nshards = 1 if only is not None else min(jobs, getattr(mod, 'MAX_SHARDS', 16))
     timeout = getattr(mod, 'TIMEOUT_S', {'quick': 900, 'thorough': 7200})[tier]
     budget = getattr(mod, 'BUDGET_S', {}).get(tier)
@@ -209,7 +209,7 @@ def main(argv=None):
         'wall_s': round(time.time() - t0, 2),
         'violations': len(unlisted),
     }
-    if only is None:
+    if only is None and not os.environ.get('RV_NO_EVIDENCE'):
         os.makedirs(os.path.join(core.VERIF, 'evidence'), exist_ok=True)
         with open(os.path.join(core.VERIF, 'evidence', prop + '.json'), 'w') as f:
             json.dump(evidence, f, indent=1, sort_keys=True)
